@@ -347,7 +347,7 @@ func main() {
 	run := common.NewRun(a, "C24", "HV.Compress.Wrapper")
 	run.Shard = 25
 	thorough := a.Tier == "thorough"
-	run.Meta.Rule = "a case is one algorithm (gzip, lz4, snappy, zstd) with one input (0..512 bytes: empty, single bytes, runs, text, random, repetitive) and either its Compress/Decompress round trip through the real Compressor, or a group of up to 24 damaged forms of its compressed bytes (every position flipped, multi-byte flips, truncations, appended garbage) each decompressed by the real Compressor and by the codec directly; plus arbitrary garbage, unknown compressor types and large (64 KiB, 1 MiB) round trips; non-trivial = a damage group, or a round trip of a non-empty input"
+	run.Meta.Rule = "a case is one algorithm (gzip, lz4, snappy, zstd) with one input (0..512 bytes: empty, single bytes, runs, text, random, repetitive) and either its Compress/Decompress round trip through the real Compressor, or a group of up to 24 damaged forms of its compressed bytes (every position flipped, multi-byte flips, truncations, appended garbage) each decompressed by the real Compressor and by the codec directly; plus arbitrary garbage, unknown compressor types and large round trips (64 KiB-1 .. 4 MiB+1 on the codecs' block boundaries; zeros, byte runs, periodic, sparse and random content, i.e. ratios from 1:1 to beyond 1000:1; one reused Compressor object per algorithm); non-trivial = a damage group, or a round trip of a non-empty input"
 	rng := common.NewRng(a.Seed, "C24")
 	inputs := genInputs(rng, thorough)
 
@@ -547,26 +547,85 @@ func main() {
 			run.Hist("unknown_type")
 		}
 	}
-	// large payloads: compared here, not in Coq
-	sizes := []int{65536, 1 << 20}
+	// large payloads: compared here, not in Coq.  Sizes sit on the codecs' internal boundaries
+	// (64 KiB snappy block / lz4 window, 128 KiB zstd block, 4 MiB lz4 frame block) and go well
+	// beyond 1 MiB; contents range from incompressible to the most compressible there is (lz4
+	// reaches ~255:1, gzip ~1000:1, zstd far more), because size caps, ratio caps and buffer
+	// reuse only show at such extremes.  One Compressor object per algorithm serves all of
+	// them in sequence (second and later use of the same object), a fresh one cross-checks.
+	type bigJob struct {
+		t, n    int
+		pattern string
+		x       []byte
+		same    bool
+		detail  string
+	}
+	sizes := []int{65535, 65536, 65537, 131073, 1<<20 + 1, 3 << 20, 4<<20 + 1}
+	if thorough {
+		sizes = append(sizes, 8<<20, 16<<20+1)
+	}
+	patterns := []string{"zeros", "run", "periodic", "sparse", "random"}
+	mkBig := func(pattern string, n int) []byte {
+		x := make([]byte, n)
+		switch pattern {
+		case "run":
+			for i := range x {
+				x[i] = 0xab
+			}
+		case "periodic":
+			copy(x, bytes.Repeat([]byte("hydraide swamp treasure "), n/24+1))
+		case "sparse":
+			for k := 0; k < n/4096+1; k++ {
+				x[rng.Intn(n)] = byte(1 + rng.Intn(255))
+			}
+		case "random":
+			x = rng.Bytes(n)
+		}
+		return x
+	}
+	var bigJobs []*bigJob
 	for t := 1; t <= 4; t++ {
 		for _, n := range sizes {
-			for variant := 0; variant < 2; variant++ {
-				x := rng.Bytes(n)
-				if variant == 1 {
-					x = bytes.Repeat([]byte("hydraide swamp treasure "), n/24+1)[:n]
+			for _, pattern := range patterns {
+				if pattern == "random" && n > 1<<20+1 && !thorough {
+					continue // incompressible data beyond 1 MiB adds time, not coverage
 				}
-				we := wrapEnc(t, x)
-				same := false
-				if !we.err && we.panic == "" {
-					wd := wrapDec(t, we.data)
-					same = !wd.err && wd.panic == "" && bytes.Equal(wd.data, x)
-				}
-				run.Add(common.App("CRoundBig", common.Z(int64(t)), common.N(uint64(n)), common.Bool(same)),
-					map[string]interface{}{"kind": "roundtrip-large", "alg": algName[t], "len": n, "variant": variant, "same": same}, true)
-				run.Hist("roundtrip_large_" + algName[t])
+				bigJobs = append(bigJobs, &bigJob{t: t, n: n, pattern: pattern, x: mkBig(pattern, n)})
 			}
 		}
+	}
+	common.Parallel(4, 4, func(w int) {
+		t := w + 1
+		shared := compressor.New(compressor.Type(t))
+		for _, j := range bigJobs {
+			if j.t != t {
+				continue
+			}
+			we := guard(func() ([]byte, error) { return shared.Compress(j.x) })
+			if we.err || we.panic != "" {
+				j.detail = "compress failed " + we.panic
+				continue
+			}
+			wd := guard(func() ([]byte, error) { return shared.Decompress(we.data) })
+			fd := wrapDec(t, we.data) // a fresh object must agree
+			switch {
+			case wd.err || wd.panic != "":
+				j.detail = "decompress failed " + wd.panic
+			case !bytes.Equal(wd.data, j.x):
+				j.detail = fmt.Sprintf("decompressed %d bytes of %d (compressed form: %d bytes)", len(wd.data), len(j.x), len(we.data))
+			case !fd.same(wd):
+				j.detail = "fresh and reused Compressor objects disagree"
+			default:
+				j.same = true
+			}
+		}
+	})
+	for _, j := range bigJobs {
+		run.Add(common.App("CRoundBig", common.Z(int64(j.t)), common.N(uint64(j.n)), common.Bool(j.same)),
+			map[string]interface{}{"kind": "roundtrip-large", "alg": algName[j.t], "len": j.n, "content": j.pattern, "same": j.same, "detail": j.detail}, true)
+		run.Hist("roundtrip_large_" + algName[j.t])
+		run.Hist("roundtrip_large_content_" + j.pattern)
+		j.x = nil
 	}
 	tick("large")
 	run.Shard = (run.Meta.Evaluations + 7) / 8 // each coqc start costs seconds: few shards
